@@ -108,6 +108,12 @@ func cmdCheck(args []string) int {
 	var fnres []*FnResult
 	var toolErrs []string
 	run := func(name string, sweep bool) {
+		// "fn|a,b": count only obligations of fn whose name contains a or b
+		var onlyThese []string
+		if i := strings.Index(name, "|"); i >= 0 {
+			onlyThese = strings.Split(name[i+1:], ",")
+			name = name[:i]
+		}
 		r := P.verifyFn(name, sweep)
 		fnres = append(fnres, r)
 		if r.Err != "" {
@@ -117,6 +123,17 @@ func cmdCheck(args []string) int {
 		for _, vc := range r.VCs {
 			if !countsFor(pc, vc, sweep) {
 				continue
+			}
+			if len(onlyThese) > 0 && vc.Kind != "vacuity" && vc.Kind != "canary" {
+				hit := false
+				for _, o := range onlyThese {
+					if strings.Contains(vc.Obl, o) {
+						hit = true
+					}
+				}
+				if !hit {
+					continue
+				}
 			}
 			all = append(all, vc)
 		}
